@@ -244,3 +244,109 @@ func vCountPrefix(l []string, p string) int {
 	}
 	return k
 }
+
+// unsuballrace (C28, E1): Node.Unsubscribe(user, "") racing other server-side operations on the
+// same connection. The statement quantifies over every subscription state of the target; with
+// concurrent callers that includes states reached while another call is in flight.
+//
+// One connection of user u holding {a (server-side), c (client-side)}. Threads:
+//   T1: Node.Unsubscribe(u, "")
+//   T2: Node.Subscribe(u, "b") ; Node.Unsubscribe(u, "")            (variant two-passes)
+//   T2: Node.Subscribe(u, "b") ; Node.Unsubscribe(u, "", session)   (variant by-session)
+//   T2: Client.Unsubscribe("") through Hub().UserConnections        (variant client-api)
+// Oracle at quiescence: T2's unsubscribe-all started after its own subscribe to b had returned,
+// so whatever T1 did, no channel may be left: Channels() empty, no routing entry, exactly one
+// unsubscribe callback per channel that was ever established (a, b, c).
+func init() {
+	vsched.Register(&vsched.Harness{
+		Name: "unsuballrace", Props: []string{"C28"}, Kind: "sched",
+		Doc: "one connection holding {a server-side, c client-side}; thread T1: Node.Unsubscribe(u, \"\"); thread T2: Node.Subscribe(u, b) then an unsubscribe-all (Node.Unsubscribe by user / by session, or Client.Unsubscribe(\"\")); every interleaving within the preemption bound; oracle: at quiescence Channels() is empty, the hub holds no subscription of the connection, and every established channel got exactly one unsubscribe callback",
+		Variants: func(tier string) []vsched.Variant {
+			// delay bounding (every departure from the default scheduler counts, also at blocking points):
+			// the write path behind every unsubscribe push wakes several goroutines, and the free
+			// orders among them multiply without touching the property
+			if tier == "thorough" {
+				return []vsched.Variant{
+					{Name: "two-passes", Bound: 3, Delay: true, Shards: 8, BudgetS: 280},
+					{Name: "by-session", Bound: 3, Delay: true, Shards: 8, BudgetS: 280},
+					{Name: "client-api", Bound: 3, Delay: true, Shards: 8, BudgetS: 280},
+					{Name: "two-passes-presence", Bound: 2, Delay: true, Shards: 8, BudgetS: 280},
+					{Name: "two-passes-lifo", Bound: 3, Delay: true, LIFO: true, Shards: 8, BudgetS: 280},
+				}
+			}
+			return []vsched.Variant{
+				{Name: "two-passes", Bound: 2, Delay: true, Shards: 1, BudgetS: 100},
+				{Name: "client-api", Bound: 2, Delay: true, Shards: 1, BudgetS: 100},
+				{Name: "two-passes-lifo", Bound: 2, Delay: true, LIFO: true, Shards: 1, BudgetS: 100},
+			}
+		},
+		Sched: func(v vsched.Variant) func() {
+			return func() {
+				vsched.Quiet(true)
+				s := vNewSoNode(nil, nil)
+				so := SubscribeOptions{}
+				if v.Name == "two-passes-presence" {
+					so = SubscribeOptions{EmitPresence: true, EmitJoinLeave: true}
+				}
+				sp := &vSoConn{user: "u", labels: map[string]string{"region": "eu"},
+					serverSubs: map[string]SubscribeOptions{"a": so}, clientOpts: map[string]SubscribeOptions{"c": so}}
+				s.connect(sp)
+				sp.cl.subscribe("c")
+				vsched.WaitIdle()
+				if got := fmt.Sprint(vSortedChannels(sp.cl.c)); got != "[a c]" {
+					panic("verif: unsuballrace setup: channels " + got)
+				}
+				vsched.Quiet(false)
+				done := make(chan struct{}, 2)
+				go func() {
+					_ = s.n.Unsubscribe("u", "")
+					done <- struct{}{}
+				}()
+				go func() {
+					_ = s.n.Subscribe("u", "b")
+					switch v.Name {
+					case "two-passes", "two-passes-presence", "two-passes-lifo":
+						_ = s.n.Unsubscribe("u", "")
+					case "by-session":
+						_ = s.n.Unsubscribe("u", "", WithUnsubscribeSession(sp.cl.c.sessionID()))
+					case "client-api":
+						for _, c := range s.n.Hub().UserConnections("u") {
+							c.Unsubscribe("")
+						}
+					}
+					done <- struct{}{}
+				}()
+				<-done
+				<-done
+				vsched.WaitIdle()
+				vsched.Quiet(true)
+				left := vSortedChannels(sp.cl.c)
+				sort.Strings(sp.unsubs)
+				vsched.Logf("%s: channels left %v, unsubscribe callbacks %v", v.Name, left, sp.unsubs)
+				if len(left) != 0 {
+					vsched.Failf("c28-race-still-subscribed", "T2's unsubscribe-all started after its Subscribe(b) had returned, yet at quiescence the connection still holds %v (unsubscribe callbacks %v)", left, sp.unsubs)
+				}
+				for _, ch := range []string{"a", "b", "c"} {
+					if n := s.n.Hub().NumSubscribers(ch); n != 0 {
+						vsched.Failf("c28-race-routing-entry-left", "channel %s still has %d subscribers in the hub", ch, n)
+					}
+					cnt := 0
+					for _, u := range sp.unsubs {
+						if strings.HasPrefix(u, ch+"/") {
+							cnt++
+						}
+					}
+					if cnt > 1 {
+						vsched.Failf("c28-race-unsubscribe-callback-twice", "channel %s: %d unsubscribe callbacks %v", ch, cnt, sp.unsubs)
+					}
+					if cnt == 0 && ch != "b" { // b may have been refused (racing passes), a and c were established before
+						vsched.Failf("c28-race-unsubscribe-callback-missing", "channel %s was established and ended without an unsubscribe callback %v", ch, sp.unsubs)
+					}
+				}
+				_ = sp.cl.close()
+				vsched.WaitIdle()
+			}
+		},
+	})
+}
+
